@@ -26,8 +26,17 @@ def cases_for(tier):
         cs = C07.thin(cs)
     return cs
 
+WORD_CFGS = {'quick': ['fast', 'w32fast', 'dbgp', 'rel3', 'clang'], 'thorough': ['fast', 'w32fast', 'dbgp', 'dbg32', 'rel3', 'O1', 'clang']}
+
 def sub(tier, cfg, out):
     global _cfg
+    if cfg.startswith('word:'):
+        # word-level layer: the C05 catalogue (exact integer / GF(2)[x] formulas, which the primary configuration satisfies)
+        # executed by the other configurations: the SAFE_FAST-only, assertion-only and per-compiler code of the arithmetic layer
+        cfg = cfg[5:]
+        w = C07.word_level(tier, cfg, classes=None)
+        json.dump(w, open(out, 'w'))
+        return 0
     _cfg = cfg
     cs = cases_for(tier)
     res = vf.pmap(dig, cs, case_timeout=300)
@@ -77,6 +86,19 @@ def run(tier):
         chk.part('cfg_' + cfg, states=len(set(f for f, _ in cs)), transitions=n, traces_validated_against_impl=n, evaluations=n)
         chk.outcome(cfg)
         done.append(cfg)
+    for cfg in WORD_CFGS[tier]:
+        if chk.expired():
+            chk.cap('deadline before word-level configuration ' + cfg); continue
+        w, err = run_cfg(tier, 'word:' + cfg)
+        if w is None:
+            chk.violation('harness:word:' + cfg, {'cfg': cfg, 'kind': 'none'}, 'word-level configuration %s failed to run: %s' % (cfg, err)); continue
+        for v in w['viol']:
+            chk.violation('%s:%s' % (cfg, v['key']), v['rec'], '%s (configuration %s; the primary configuration satisfies the formula, see C05)' % (v['msg'], cfg))
+        for c in w['caps']:
+            chk.cap('word level [%s]: %s' % (cfg, c))
+        chk.part('word_' + cfg, states=w['cells'], transitions=w['calls'], traces_validated_against_impl=w['calls'], evaluations=w['calls'], functions=w['functions'])
+        chk.outcome('word:' + cfg)
+    chk.sample({'word_level': 'C05 catalogue (ww/zz/pp, both editions, lengths 0..6 quick / 0..20 thorough) in configurations %s against exact formulas' % WORD_CFGS[tier]})
     chk.sample({'configurations': [PRIMARY] + done, 'cases': len(cs)})
     chk.sample({'fn': cs[0][0], 'case': cat.short(cs[0][1]), 'digest_primary': base[0]})
     chk.assumptions += ['32-bit word configuration = B_PER_W 32 on LP64 (hook H2); word-level functions (C05/C06) are compared against exact integers in both word sizes by their own checks',
@@ -87,6 +109,8 @@ def run(tier):
 def replay(rec):
     corpora.load_all()
     global _cfg
+    if rec.get('kind') == 'call':
+        return C07.replay(rec)
     if rec.get('kind') != 'diff':
         return None
     case = cat.dec_case(rec['case'])
